@@ -53,7 +53,7 @@ func (p *Program) buildQuery(o *Obligation, wantModel bool) string {
 	sy := newSymtab()
 	var asserts []*Term
 	asserts = append(asserts, o.Hyps...)
-	neg := mkNot(o.Goal)
+	neg := mkNot(witnessExpand(o.Goal, o.Hyps))
 	asserts = append(asserts, neg)
 	// cone of influence over axioms
 	used := map[string]bool{}
@@ -199,6 +199,90 @@ func (p *Program) buildQuery(o *Obligation, wantModel bool) string {
 		b.WriteString("(get-model)\n")
 	}
 	return b.String()
+}
+
+// witnessExpand helps the solvers with existential goals: "exists j :: P(j)" in a positive position is
+// replaced by the equivalent "(exists j :: P(j)) || P(c1) || ... || P(cn)" where the ci are the integer
+// program variables occurring in the hypotheses (loop counters, indices). Every added disjunct is an
+// instance of the existential, so the goal's meaning is unchanged; the solvers no longer have to find
+// the witness by quantifier instantiation.
+func witnessExpand(goal *Term, hyps []*Term) *Term {
+	if !hasExists(goal) {
+		return goal
+	}
+	seen := map[string]bool{}
+	var cands []*Term
+	var walk func(t *Term)
+	walk = func(t *Term) {
+		if t.Op == "var" && t.Sort == SInt && !seen[t.Name] {
+			seen[t.Name] = true
+			if witnessName(t.Name) {
+				cands = append(cands, t)
+			}
+		}
+		for _, a := range t.Args {
+			walk(a)
+		}
+	}
+	for _, h := range hyps {
+		if !hasQuantifier(h) {
+			walk(h)
+		}
+	}
+	if len(cands) == 0 || len(cands) > 24 {
+		return goal
+	}
+	var pos func(t *Term) *Term
+	pos = func(t *Term) *Term {
+		switch t.Op {
+		case "exists":
+			if len(t.Bound) != 1 || t.Bound[0].Sort != SInt {
+				return t
+			}
+			ds := []*Term{t}
+			for _, c := range cands {
+				ds = append(ds, t.Args[0].subst(map[string]*Term{t.Bound[0].Name: c}))
+			}
+			return mkOr(ds...)
+		case "and", "or":
+			args := make([]*Term, len(t.Args))
+			for i, a := range t.Args {
+				args[i] = pos(a)
+			}
+			return &Term{Op: t.Op, Args: args, Sort: t.Sort}
+		case "=>":
+			if len(t.Args) == 2 {
+				return &Term{Op: t.Op, Args: []*Term{t.Args[0], pos(t.Args[1])}, Sort: t.Sort}
+			}
+		}
+		return t
+	}
+	return pos(goal)
+}
+
+var witnessSkip = map[string]bool{"res": true, "alloc": true, "decoded": true, "mv": true, "arr": true, "new": true, "obj": true, "boxed": true, "boxedptr": true, "gv": true, "dummy": true, "x": true, "y": true}
+
+func witnessName(n string) bool {
+	i := strings.Index(n, "!")
+	if i <= 0 {
+		return false
+	}
+	if witnessSkip[n[:i]] || strings.HasPrefix(n, "G!") {
+		return false
+	}
+	return true
+}
+
+func hasExists(t *Term) bool {
+	if t.Op == "exists" {
+		return true
+	}
+	for _, a := range t.Args {
+		if hasExists(a) {
+			return true
+		}
+	}
+	return false
 }
 
 func hasQuantifier(t *Term) bool {
